@@ -72,7 +72,7 @@ func (f *Defgeneric) Call(s *slip.Scope, args slip.List, depth int) slip.Object 
 	if !ok {
 		slip.TypePanic(s, depth, "function-name", args[0], "symbol")
 	}
-	if fi := slip.FindFunc(string(name)); fi != nil {
+	if fi := slip.FindFunc(string(name)); fi != nil && !fi.Undefined() {
 		if _, ok = fi.Aux.(*Aux); !ok {
 			slip.ProgramPanic(s, depth, "%s already names an ordinary function or macro.", name)
 		}
